@@ -501,6 +501,29 @@ func checkC12(sc *Scenario, t *Truth) []Violation {
 			if _, ok := p.DependsOn[depName]; !ok {
 				continue
 			}
+			if p.IsDaemon && p.StopCmd != "" {
+				// a daemon that was up (Launched) when the shutdown began is down when its
+				// shutdown command has finished
+				up := false
+				for _, tr := range t.Trans[p.Name] {
+					if tr.Seq < sd {
+						up = tr.State == "Launched"
+					}
+				}
+				if up {
+					done := false
+					for _, in := range t.ByToken["simstop:"+p.StopCmd] {
+						if in.ExecSeq > sd && in.ExitSeq >= 0 && in.ExitSeq < firstKill.Seq {
+							done = true
+						}
+					}
+					if !done {
+						vs = append(vs, Violation{"C12", "dependency-signalled-before-dependent-died", "daemon-dependent",
+							fmt.Sprintf("%s received signal %d at seq %d before the shutdown command of the daemon %s, which depends on it and was up when the shutdown began, had finished", depName, firstKill.Sig, firstKill.Seq, p.Name), firstKill.Seq})
+					}
+				}
+				continue
+			}
 			for _, rn := range ReplicaNames(p.Name, p.Replicas) {
 				e := liveAt[rn]
 				if e == nil {
